@@ -53,6 +53,8 @@ def check(ctx):
     # with `segment`, cleanup_desc is applied to whole chunks: its connector
     # table must not swallow description vocabulary
     from .c01 import word_tables
+    from .c11 import _copyall                 # the colon-required fallback keeps the text in ONE tract
+    ctx.attempt(_copyall)
     ctx.attempt(word_tables)
     from .c04 import cleanup_words     # (lazy import: c04 imports c01)
     ctx.attempt(cleanup_words)
